@@ -33,7 +33,7 @@ def gen_case(rng, tier, params=None):
     params = params or {}
     quick = tier == "quick"
     cfg = rng.fork("cfg")
-    fam = cfg.weighted([("rand", 4), ("struct", 3), ("irred", 3), ("src", 2), ("bc", 1)])
+    fam = cfg.weighted([("rand", 4), ("struct", 3), ("irred", 3), ("src", 2), ("bc", 1), ("bcref", 1.2)])
     if params.get("family"):
         fam = params["family"]
     nmax = 12 if quick else 24
@@ -42,7 +42,11 @@ def gen_case(rng, tier, params=None):
     if params.get("m"):
         m = params["m"]
     wl = None
-    if fam in ("src", "bc"):
+    if fam == "bcref":
+        from sim import stdcorpus
+        refs = stdcorpus.list_refs(400 if quick else 1600)
+        wl = {"kind": "bcref", "ref": cfg.choice(refs)}
+    elif fam in ("src", "bc"):
         from sim import proggen
         src = proggen.gen_program(rng.fork("prog"), size=cfg.randint(3, 14 if quick else 25))
         wl = {"kind": fam, "source": src}
